@@ -16,6 +16,7 @@ from simkit.worldbase import BUFS, CHUNKS, WorldBase
 
 DUMPS = ("traj_a.atom", "traj_b.atom", "traj_c.atom")
 LOGS = ("log_a.lammps", "log_b.lammps")
+HOOMD_PATHS = ("hoomd/run_a.gsd", "hoomd/run_b.gsd", "data.v1/run.gsd")
 EXTRA_NAMES = ("vx", "vy", "vz", "q", "order", "Q6", "c_pe")
 THERMO = ("Temp", "E_pair", "E_mol", "TotEng", "Press", "Volume", "KinEng", "c_msd[4]")
 CHATTER = (
@@ -222,13 +223,14 @@ class World(WorldBase):
         return {
             "real": ["writer.lammps_writer.write_dump_header", "reader.dump_reader.DumpReader",
                      "reader.lammps_reader_helper.{read_lammps_wrapper, read_lammps_vector_wrapper, "
-                     "read_lammps_centertype_wrapper, read_additions}", "reader.gsd_reader_helper.{read_gsd, read_gsd_dcd}",
+                     "read_lammps_centertype_wrapper, read_additions}", "reader.gsd_reader_helper.{read_gsd, read_gsd_dcd, read_gsd_wrapper, read_gsd_dcd_wrapper}",
                      "reader.simulation_log.read_lammpslog", "CPython io stack on tmpfs", "pandas.read_csv"],
-            "stubbed": ["HOOMD trajectory / DCD peers: duck-typed in-process fakes (gsd, mdtraj not installed)",
+            "stubbed": ["HOOMD trajectory / DCD peers: duck-typed in-process fakes; gsd / gsd.hoomd / mdtraj.formats are stub modules "
+                        "(stub file format read through the simulated disk) behind the library's own wrappers",
                         "LAMMPS as dump producer: harness client using the real header writer plus its own atom lines",
                         "LAMMPS as log producer: stub emitting the documented thermo layout",
                         "clock: reader.dump_reader.time replaced by a scripted virtual clock"],
-            "not_reached": ["read_gsd_wrapper / read_gsd_dcd_wrapper (import gsd / mdtraj, not installed)"],
+            "not_reached": [],
         }
 
     @staticmethod
@@ -258,6 +260,7 @@ class World(WorldBase):
         self.logs = {}       # path -> dict(text, sections)
         self.readers = {}    # name -> long-lived DumpReader
         self.next_r = 0
+        self.hoomd = {}      # stub .gsd path -> dict(recipe, dcd)
 
     # ---------------------------------------------------------------- generation ----
     def gen(self, rng):
@@ -265,7 +268,11 @@ class World(WorldBase):
         choices = ["append"] * (3 * sw["w_dump"])
         if self.dumps:
             choices += ["read_dump", "read_vector", "read_center", "read_additions", "reread"] * sw["w_dump"]
-        choices += ["hoomd"] * sw["w_hoomd"]
+        choices += ["hoomd", "hoomd_write"] * sw["w_hoomd"]
+        if self.hoomd:
+            choices += ["hoomd_read", "hoomd_read"] * sw["w_hoomd"]
+            if self.readers:
+                choices += ["reread"] * sw["w_hoomd"]
         choices += ["write_log"] * sw["w_log"]
         if self.logs:
             choices += ["read_log", "sweep_log"] * sw["w_log"]
@@ -275,7 +282,7 @@ class World(WorldBase):
         op = getattr(self, "gen_" + kind)(rng)
         if op is None:
             return self.gen_append(rng)
-        if sw["faults"] and op["op"] in ("read_dump", "read_vector", "read_center", "read_additions", "read_log", "reread") \
+        if sw["faults"] and op["op"] in ("read_dump", "read_vector", "read_center", "read_additions", "read_log", "reread", "hoomd_read") \
                 and rng.random() < sw["p_fault"]:
             k = rng.choice(sw["faults"])
             if k == "clock_jump":
@@ -315,9 +322,17 @@ class World(WorldBase):
         return {"op": "read_dump", "path": p, "via": rng.choice(["DumpReader", "wrapper", "keep"])}
 
     def gen_reread(self, rng):
-        if not self.readers:
-            return self.gen_read_dump(rng)
-        return {"op": "reread", "reader": rng.choice(sorted(self.readers))}
+        ok = [n for n in sorted(self.readers) if self._reread_ok(n)]
+        if not ok:
+            return self.gen_read_dump(rng) if self.dumps else None
+        return {"op": "reread", "reader": rng.choice(ok)}
+
+    def _reread_ok(self, name):
+        rd, path = self.readers[name]
+        if path.endswith(".gsd"):
+            h = self.hoomd.get(path)
+            return h is not None and h["recipe"]["ndim"] == rd.ndim and (h["dcd"] or rd.filetype.name != "GSD_DCD")
+        return path in self.dumps
 
     def gen_read_vector(self, rng):
         p = self._some_dump(rng)
@@ -347,11 +362,25 @@ class World(WorldBase):
 
     def gen_hoomd(self, rng):
         dcd = rng.random() < 0.5
-        return {"op": "hoomd", "dcd": dcd,
-                "recipe": {"ndim": rng.choice([2, 3]), "N": rng.randint(1, 10), "T": rng.randint(1, 5),
-                           "K": rng.randint(1, 4), "nvary": (not dcd) and rng.random() < 0.3,
-                           "share_typeid": rng.random() < 0.4, "boxvary": rng.random() < 0.3,
-                           "subseed": rng.randrange(1 << 40)}}
+        return {"op": "hoomd", "dcd": dcd, "times": rng.choice([1, 1, 2, 3]), "recipe": self._hoomd_recipe(rng, dcd)}
+
+    def _hoomd_recipe(self, rng, dcd):
+        return {"ndim": rng.choice([2, 3]), "N": rng.randint(1, 10), "T": rng.randint(1, 5),
+                "K": rng.randint(1, 4), "nvary": (not dcd) and rng.random() < 0.3,
+                "share_typeid": rng.random() < 0.4, "boxvary": rng.random() < 0.3,
+                "subseed": rng.randrange(1 << 40)}
+
+    def gen_hoomd_write(self, rng):
+        dcd = rng.random() < 0.6
+        return {"op": "hoomd_write", "path": rng.choice(HOOMD_PATHS), "dcd": dcd, "recipe": self._hoomd_recipe(rng, dcd)}
+
+    def gen_hoomd_read(self, rng):
+        if not self.hoomd:
+            return None
+        path = rng.choice(sorted(self.hoomd))
+        h = self.hoomd[path]
+        return {"op": "hoomd_read", "path": path, "dcd": h["dcd"] and rng.random() < 0.6,
+                "via": rng.choice(["wrapper", "DumpReader", "keep"])}
 
     def gen_write_log(self, rng):
         return {"op": "write_log", "path": rng.choice(LOGS),
@@ -538,6 +567,17 @@ class World(WorldBase):
         if op["reader"] not in self.readers:
             raise Refuse("no reader")
         rd, path = self.readers[op["reader"]]
+        if path in self.hoomd or path.endswith(".gsd"):
+            h = self.hoomd.get(path)
+            dcd = rd.filetype.name == "GSD_DCD"
+            if h is None or (dcd and not h["dcd"]) or h["recipe"]["ndim"] != rd.ndim:
+                raise Refuse("hoomd file gone, or rewritten in another dimension than the reader was built for")
+            _, failed = self._read(op, rd.read_onefile, "reread")
+            if failed:
+                return "failed by fault"
+            pristine, xyz0, _l = make_hoomd(h["recipe"])
+            self._judge_hoomd(rd.snapshots, pristine, xyz0, h["recipe"]["ndim"], dcd, ("gsd-dcd" if dcd else "gsd") + "-file")
+            return f"{path} re-read through {op['reader']}"
         d = self._frames(path)
         _, failed = self._read(op, rd.read_onefile, "reread")
         if failed:
@@ -631,37 +671,87 @@ class World(WorldBase):
                 self.ctx.probe("center_frame_without_match")
         return f"{op['path']} map={mol}"
 
-    def do_hoomd(self, op):
-        from PyMatterSim.reader.gsd_reader_helper import read_gsd, read_gsd_dcd
-        r = op["recipe"]
-        frames, xyz, lengths = make_hoomd(r)
-        pristine, _x, _l = make_hoomd(r)        # what the peer holds, untouched by the converters
-        ndim = r["ndim"]
-        traj = FakeTrajectory(frames)
-        if op["dcd"]:
-            dcd = FakeDCD(xyz, lengths)
-            tag = "gsd-dcd"
-            res, exc, _ = self.call(lambda: read_gsd_dcd(traj, dcd, ndim))
-        else:
-            tag = "gsd"
-            res, exc, _ = self.call(lambda: read_gsd(traj, ndim))
-        if exc is not None:
-            self.drop_last()
-            raise Violation(f"C19/{tag}-raised:hoomd", f"{exc[0]}: {exc[1]}")
-        if res is None or res.nsnapshots != len(frames) or len(res.snapshots) != len(frames):
-            raise Violation(f"C19/{tag}-frames:hoomd", f"{getattr(res, 'nsnapshots', None)} vs {len(frames)}")
+    def _judge_hoomd(self, res, pristine, xyz, ndim, dcd, tag):
+        if res is None or res.nsnapshots != len(pristine) or len(res.snapshots) != len(pristine):
+            raise Violation(f"C19/{tag}-frames:hoomd", f"{getattr(res, 'nsnapshots', None)} vs {len(pristine)}")
         for t, (s, fr) in enumerate(zip(res.snapshots, pristine)):
             if s.timestep != fr.configuration.step or s.nparticle != fr.particles.N:
                 raise Violation(f"C19/{tag}-frame-meta:hoomd", f"frame {t}: step {s.timestep}/{fr.configuration.step} n {s.nparticle}")
             if not np.array_equal(np.asarray(s.particle_type, dtype=float), fr.particles.typeid.astype(float) + 1):
                 raise Violation(f"C19/{tag}-types:hoomd", f"frame {t}: {np.asarray(s.particle_type).tolist()}")
-            want = xyz[t][:, :ndim] if op["dcd"] else fr.particles.position[:, :ndim]
+            want = xyz[t][:, :ndim] if dcd else fr.particles.position[:, :ndim]
             got = np.asarray(s.positions)
             if got.shape != want.shape or not np.array_equal(got, want):
                 raise Violation(f"C19/{tag}-positions:hoomd", f"frame {t}: shape {got.shape} expected {want.shape}")
             if not np.array_equal(np.asarray(s.boxlength), fr.configuration.box[:ndim]):
                 raise Violation(f"C19/{tag}-box:hoomd", f"frame {t}: {np.asarray(s.boxlength).tolist()}")
-        return f"{tag} T={len(frames)} N={r['N']} ndim={ndim}"
+
+    def do_hoomd(self, op):
+        from PyMatterSim.reader.gsd_reader_helper import read_gsd, read_gsd_dcd
+        r = op["recipe"]
+        frames, xyz, lengths = make_hoomd(r)
+        pristine, xyz0, _l = make_hoomd(r)        # what the peer holds, untouched by the converters
+        ndim = r["ndim"]
+        traj = FakeTrajectory(frames)
+        tag = "gsd-dcd" if op["dcd"] else "gsd"
+        for k in range(op.get("times", 1)):
+            # the client converts the same open trajectory again (k > 0): same answer expected
+            if op["dcd"]:
+                dcd = FakeDCD(xyz, lengths)
+                res, exc, _ = self.call(lambda: read_gsd_dcd(traj, dcd, ndim))
+            else:
+                res, exc, _ = self.call(lambda: read_gsd(traj, ndim))
+            if exc is not None:
+                self.drop_last()
+                raise Violation(f"C19/{tag}-raised:hoomd", f"{exc[0]}: {exc[1]}")
+            self._judge_hoomd(res, pristine, xyz0, ndim, op["dcd"], tag)
+            if k:
+                self.ctx.probe("hoomd_trajectory_converted_again")
+        return f"{tag} T={len(frames)} N={r['N']} ndim={ndim} x{op.get('times', 1)}"
+
+    def do_hoomd_write(self, op):
+        from simkit import peers
+        frames, xyz, lengths = make_hoomd(op["recipe"])
+        os.makedirs(os.path.dirname(op["path"]), exist_ok=True)
+        if op["path"] in self.hoomd:
+            self.ctx.probe("hoomd_file_rewritten")
+        peers.write_gsd(op["path"], frames)
+        dcdpath = op["path"][:-3] + "dcd"
+        if op["dcd"]:
+            peers.write_dcd(dcdpath, xyz, lengths)
+        elif os.path.exists(dcdpath):
+            os.remove(dcdpath)
+        self.hoomd[op["path"]] = {"recipe": op["recipe"], "dcd": op["dcd"]}
+        return f"{op['path']} dcd={op['dcd']} T={op['recipe']['T']}"
+
+    def do_hoomd_read(self, op):
+        """The stub HOOMD process' files through the library's own wrappers (gsd / mdtraj are
+        stub modules reading through the simulated disk)."""
+        from PyMatterSim.reader.dump_reader import DumpReader
+        from PyMatterSim.reader.gsd_reader_helper import read_gsd_dcd_wrapper, read_gsd_wrapper
+        from PyMatterSim.reader.reader_utils import DumpFileType
+        h = self.hoomd.get(op["path"])
+        if h is None or (op["dcd"] and not h["dcd"]):
+            raise Refuse("no such hoomd file")
+        r = h["recipe"]
+        ndim = r["ndim"]
+        pristine, xyz0, _l = make_hoomd(r)
+        tag = "gsd-dcd" if op["dcd"] else "gsd"
+        if op["via"] == "wrapper":
+            fn = read_gsd_dcd_wrapper if op["dcd"] else read_gsd_wrapper
+            snaps, failed = self._read(op, lambda: fn(op["path"], ndim), "hoomd_read")
+        else:
+            rd = DumpReader(op["path"], ndim=ndim, filetype=DumpFileType.GSD_DCD if op["dcd"] else DumpFileType.GSD)
+            _, failed = self._read(op, rd.read_onefile, "hoomd_read")
+            snaps = rd.snapshots
+            if op["via"] == "keep" and not failed:
+                name = f"r{self.next_r}"
+                self.next_r += 1
+                self.readers[name] = (rd, op["path"])
+        if failed:
+            return "failed by fault"
+        self._judge_hoomd(snaps, pristine, xyz0, ndim, op["dcd"], tag + "-file")
+        return f"{op['path']} via {op['via']} dcd={op['dcd']}"
 
     def do_write_log(self, op):
         text, sections = make_log(op["recipe"])
